@@ -5,7 +5,6 @@ package main
 
 import (
 	"go/token"
-	"go/types"
 	"sort"
 
 	"golang.org/x/tools/go/ssa"
@@ -39,15 +38,14 @@ func iterationIndex(cond ssa.Value, h *ssa.BasicBlock) ssa.Value {
 }
 
 // tagReaders: the consumers that read (or hand on) a tag octet, recognised by
-// their result (byte, error).
+// their results (a byte …, an error).
 func (w *World) tagReaders(consumers map[*ssa.Function]bool) map[*ssa.Function]bool {
 	out := map[*ssa.Function]bool{}
 	for fn := range consumers {
-		res := fn.Signature.Results()
-		if res.Len() == 2 && isErrorType(res.At(1).Type()) {
-			if b, ok := res.At(0).Type().Underlying().(*types.Basic); ok && b.Kind() == types.Uint8 {
-				out[fn] = true
-			}
+		// (also a prelude helper that hands the octet back with what it already
+		// decided about it: `tag, settled, err := d.leadTag(who)`, dispatch_lead.go)
+		if handsBackOctet(fn) {
+			out[fn] = true
 		}
 	}
 	return out
